@@ -174,11 +174,12 @@ def run_C07(ctx, rep):
 
 
 def run_C08(ctx, rep):
-    gen_driver.run_twins(ctx, rep, lambda n, k: n.replace('_par', '') in ('t_mac_sugar', 't_macn_sugar', 't_mach_sugar', 't_macd_sugar'), floors={'T.L': 8})
+    gen_driver.run_twins(ctx, rep, lambda n, k: n.replace('_par', '') in ('t_mac_sugar', 't_macn_sugar', 't_mach_sugar', 't_macd_sugar', 't_maca_sugar'), floors={'T.L': 10})
     gen_driver.run_tv(ctx, rep, only_tags=['twin'], floors={'R1': 40})
     witness_rules.run_witnesses(ctx, rep, ctx.tier, kinds=('macro_self_rec', 'macro_mutual_rec', 'macro_head_rec'))
     macro_rules.check_M2(ctx, rep)
     macro_rules.check_M3(ctx, rep)
+    macro_rules.check_M4(ctx, rep)
 
 
 def run_C09(ctx, rep):
